@@ -14,7 +14,7 @@ from .. import symjax as sj, solve, gfi
 FUNCTIONS = ["ADEV.eval_jaxpr_adev (CPS interpreter)", "ADEV.forward_mode", "Expectation.estimate/jvp_estimate/grad_estimate", "invoke_closed_over(_jvp)",
              "FlipEnum", "FlipEnumParallel", "CategoricalEnumParallel", "FlipMVD", "REINFORCE", "_flip_lane_rb_estimate", "NormalREPARAM", "UniformREPARAM",
              "MultivariateNormalDiagREPARAM", "seed / modular_vmap of ADEV programs"]
-BOUNDS = {"programs": "<= 3 sites per program, batch <= 2, categorical K = 3; cond in the continuation",
+BOUNDS = {"programs": "<= 3 sites per program, batch <= 2, categorical K = 3; cond in the continuation; reparameterised sites with broadcast (scalar vs vector) parameters and non-additive objectives",
           "values": "all parameter values, tangent directions and site outcomes"}
 ASSUMPTIONS = ["continuous score-function sites (normal_reinforce, ...) and geometric_reinforce: 'averages to the exact derivative' is an integral / infinite sum; the structural form f*(d log p) + df is what is decided",
                "site laws trust TFP's sampling contract"]
